@@ -23,6 +23,7 @@
 #endif
 #include <getopt.h>
 #include <stdbool.h>
+#include <stdint.h>
 #include <stdio.h>
 #include <stdlib.h>
 #include <string.h>
@@ -62,6 +63,7 @@ struct parsed_ops {
   enum OUTPUT create_bin;
   char *param_file;
   int chunk_boundary;
+  int chunk_size; // chunk fitting size (-c), 0 if not given
 };
 
 static void parse_opt(assemblyline_t al, int argc, char **argv,
@@ -357,7 +359,8 @@ int main(int argc, char *argv[]) {
                            .debug = false,
                            .create_bin = NONE,
                            .param_file = NULL,
-                           .chunk_boundary = 0};
+                           .chunk_boundary = 0,
+                           .chunk_size = 0};
 
   parse_opt(al, argc, argv, &ops);
   set_mov_imm(al, ops.mov_imm);
@@ -388,6 +391,11 @@ int main(int argc, char *argv[]) {
     // init total count
     if (m.count)
       total_chunk_brks = 0;
+    // with chunk fitting the library prints the whole buffer after every call:
+    // that would repeat it for every line, so it is printed once, at the end
+    const bool print_at_end = ops.debug && ops.chunk_size > 1 && !m.count;
+    if (print_at_end)
+      asm_set_debug(al, false);
 
     while (getline(&line, &size, stdin) != -1) {
 
@@ -402,6 +410,15 @@ int main(int argc, char *argv[]) {
     }
 
     free(line);
+    if (print_at_end) {
+      const uint8_t *code = asm_get_code(al);
+      for (int i = 0; i < asm_get_offset(al); i++) {
+        if (i % ops.chunk_size == 0 && i != 0)
+          printf("|\n");
+        printf("%02x ", code[i]);
+      }
+      printf("\n");
+    }
   }
 
   if (total_chunk_brks != -1)
@@ -500,6 +517,7 @@ static void parse_opt(assemblyline_t al, int argc, char **argv,
       if (optarg == NULL || (temp = atoi(optarg)) <= 1)
         err_print_usage("Error: [-c CHUNK_SIZE>1] expects an integer\n");
       asm_set_chunk_size(al, temp);
+      r->chunk_size = temp;
       break;
 
     case 'b':
